@@ -50,7 +50,7 @@ type call struct {
 }
 
 var callKinds = []string{"SolarToLunar", "NewLunar", "LunarYearTable", "LunarMonthNext", "BadLunarMonth", "BadLunarDay", "BadSolar", "FarYear", "ReverseBaZi", "Holiday", "EdgeYear", "TermTable", "SolarWeekWalk",
-	"Fortune", "EightCharFull", "TaoFoto", "CivilUnits", "HolidayViews", "TwiceInARow", "AncientYear", "UtilDecoders", "UtilBadArgs", "AstroDirect", "CivilUtil"}
+	"Fortune", "EightCharFull", "TaoFoto", "CivilUnits", "HolidayViews", "TwiceInARow", "AncientYear", "UtilDecoders", "UtilBadArgs", "AstroDirect", "CivilUtil", "HugeYear"}
 
 // small pools: direct utility calls draw their pillar indices from a few values so that the same (or a neighbouring)
 // table slot is asked by different calls of one history
@@ -260,6 +260,10 @@ func run(c call) (out string) {
 		y2 := y + []int{0, 1, -1, 4}[ref.Mod(c.H, 4)]
 		return fmt.Sprint(SolarUtil.GetDaysBetween(y, c.B, c.C, y2, 1+ref.Mod(c.B+c.H, 12), 1+ref.Mod(c.C+3, 28)), SolarUtil.GetDaysInYear(y, c.B, c.C), SolarUtil.GetWeek(y, c.B, c.C), SolarUtil.GetDaysOfMonth(y, c.B), SolarUtil.GetDaysOfYear(y),
 			SolarUtil.IsLeapYear(y), SolarUtil.GetWeeksOfMonth(y, c.B, c.H%7), SolarUtil.IsBefore(y, c.B, c.C, c.H, 0, 0, y2, c.B, c.C, 12, 0, 0))
+	case "HugeYear": // the civil side accepts any year: the same month-day a multiple of 2^16 (2^15, 2^8 x 100) years away
+		yy := y + []int{65536, -65536, 32768, 131072, 25600, 1 << 32}[ref.Mod(c.H, 6)]
+		s := calendar.NewSolar(yy, c.B, c.C, c.H, 0, 0)
+		return fmt.Sprintf("%s w%d %v %v %s", s.ToYmdHms(), s.GetWeek(), listStr(s.GetFestivals()), listStr(s.GetOtherFestivals()), s.GetXingZuo())
 	case "TwiceInARow": // the same instant converted twice in a row, second answer reported
 		s := calendar.NewSolar(y, c.B, c.C, c.H, 7, 5)
 		_ = s.GetLunar().String()
@@ -882,6 +886,21 @@ var methodOrder = ev.Register(&ev.P[orderCase]{
 	Require: []string{"obj:Lunar", "obj:Solar", "obj:Yun", "obj:LunarYear", "obj:SolarWeek", "obj:SolarMonth", "obj:EightChar", "obj:LunarTime"},
 })
 
+// firstRead digests the shared objects of one kind through all their accessors.
+func firstRead(kind int, s *calendar.Solar, l *calendar.Lunar, ly *calendar.LunarYear, lm *calendar.LunarMonth, extra []interface{}) string {
+	switch kind {
+	case 0:
+		return digestString(dig.Of(s, 0))
+	case 1:
+		return digestString(dig.Of(lm, 0)) + digestString(dig.Of(ly, 0))
+	case 2:
+		return digestString(dig.Of(extra[0], 0)) + digestString(dig.Of(extra[1], 0)) + digestString(dig.Of(extra[2], 0)) + digestString(dig.Of(extra[3], 0)) + digestString(dig.Of(extra[4], 0))
+	case 3:
+		return digestString(dig.Of(extra[5], 0)) + digestString(dig.Of(extra[6], 0))
+	}
+	return digestString(dig.Of(extra[7], 0)) + digestString(dig.Of(extra[8], 0))
+}
+
 // lineDiff names the first digest lines that differ.
 func lineDiff(a, b string) string {
 	x, y := strings.Split(a, "\n"), strings.Split(b, "\n")
@@ -1046,7 +1065,15 @@ func runConcurrent(c concCase) error {
 	gotShared := make([]string, len(c.Progs))
 	gotBurst := make([]string, len(c.Progs))
 	gotFirst := make([]string, len(c.Progs))
-	wantFirst := []string{digestString(dig.Of(rs, 0)), digestString(dig.Of(rs, 0)), digestString(dig.Of(rlm, 0)) + digestString(dig.Of(rly, 0))}
+	// which shared object every goroutine reads first rotates with the case: the civil date, the lunar month and year, the
+	// civil year/month/week objects, the Buddhist and Taoist dates, the chart and hour object
+	firstKind := (c.Shared + len(c.Progs) + c.SharedT.M) % 5
+	mkExtra := func(l0 *calendar.Lunar) []interface{} {
+		return []interface{}{calendar.NewSolarYearFromYear(c.SharedT.Y), calendar.NewSolarMonthFromYm(c.SharedT.Y, c.SharedT.M), calendar.NewSolarWeekFromYmd(c.SharedT.Y, c.SharedT.M, c.SharedT.D, 1),
+			calendar.NewSolarSeasonFromYm(c.SharedT.Y, c.SharedT.M), calendar.NewSolarHalfYearFromYm(c.SharedT.Y, c.SharedT.M), l0.GetFoto(), l0.GetTao(), l0.GetEightChar(), l0.GetTime()}
+	}
+	wantFirst := firstRead(firstKind, rs, rl, rly, rlm, mkExtra(rl))
+	extra := mkExtra(l)
 	var wg sync.WaitGroup
 	start := make(chan struct{})
 	for g := range c.Progs {
@@ -1056,12 +1083,7 @@ func runConcurrent(c concCase) error {
 			<-start
 			// every goroutine's first act is to read the shared civil date (alternately the shared year / month) through
 			// all its accessors: first uses of a shared object coincide
-			switch g % 3 {
-			case 0, 1:
-				gotFirst[g] = digestString(dig.Of(s, 0))
-			default:
-				gotFirst[g] = digestString(dig.Of(lm, 0)) + digestString(dig.Of(ly, 0))
-			}
+			gotFirst[g] = firstRead(firstKind, s, l, ly, lm, extra)
 			if len(c.Burst) > 0 {
 				gotBurst[g] = sortedBurst(burst(l, c.Burst, g))
 			}
@@ -1084,8 +1106,8 @@ func runConcurrent(c concCase) error {
 				return fmt.Errorf("goroutine %d call %d %+v: concurrent result differs from sequential\n seq: %.300q\n con: %.300q", g, i, c.Progs[g][i], want[g][i], got[g][i])
 			}
 		}
-		if gotFirst[g] != wantFirst[g%3] {
-			return fmt.Errorf("goroutine %d: its first reading of the shared civil date / lunar month and year (moment %v, all accessors, all goroutines at once) differs from the sequential reference: %s", g, c.SharedT, lineDiff(wantFirst[g%3], gotFirst[g]))
+		if gotFirst[g] != wantFirst {
+			return fmt.Errorf("goroutine %d: its first reading of the shared objects of kind %d (moment %v, all accessors, all goroutines at once) differs from the sequential reference: %s", g, firstKind, c.SharedT, lineDiff(wantFirst, gotFirst[g]))
 		}
 		if gotBurst[g] != wantBurst {
 			return fmt.Errorf("goroutine %d: accessor burst %v on the shared Lunar (moment %v) differs from the sequential reference\n seq: %.300q\n con: %.300q", g, c.Burst, c.SharedT, wantBurst, gotBurst[g])
